@@ -32,7 +32,7 @@ int c20_raw_case(Src &s, Report &r) {
 	unsigned ndec = 20 + s.pick(120), nthreads = 1 + s.pick(2);
 	struct Op { unsigned delay, what; vbi_service_set svc; };
 	std::vector<std::vector<Op>> ops(nthreads);
-	for (auto &v : ops) { unsigned k = 10 + s.pick(80); for (unsigned i = 0; i < k; ++i) v.push_back({ s.chance(1, 2) ? 0u : s.pick(6), s.pick(3), svcs[s.pick((uint32_t) svcs.size())] }); }
+	for (auto &v : ops) { unsigned k = 10 + s.pick(80); for (unsigned i = 0; i < k; ++i) { v.push_back({ s.chance(1, 2) ? 0u : s.pick(6), s.pick(3), svcs[s.pick((uint32_t) svcs.size())] }); if (v.back().what == 1 && v.back().delay >= 4) v.back().svc = 0;	/* remove_services(0): the customary query for the current service set */ } }
 	std::atomic<bool> done{false}; std::atomic<int> changes{0}, changes_during{0}; std::atomic<int> decoding{0};
 	std::string failure;
 	unsigned lines = (unsigned)(c.sp.count[0] + c.sp.count[1]);
